@@ -3,6 +3,7 @@ package main
 import (
 	"bytes"
 	"context"
+	"crypto/sha256"
 	"database/sql"
 	"encoding/binary"
 	"fmt"
@@ -11,6 +12,7 @@ import (
 	"os"
 	"path/filepath"
 	"sort"
+	"strings"
 	"time"
 
 	"github.com/benbjohnson/litestream"
@@ -578,6 +580,21 @@ func (e *emitter) sparseOne(r *rand.Rand, dir string, sc sparseScenario, decodeA
 		return fmt.Errorf("first sync (snapshot path, commit=lockPgno%+d): %w", sc.delta, err)
 	}
 	lap("open+first sync")
+	var fol *follower
+	if sc.follow {
+		// a follower (Replica.Restore with Follow) that starts from the snapshot taken at the first
+		// synced size and then applies every later level-0 file as it is uploaded
+		if err := db.Replica.Sync(ctx); err != nil {
+			return fmt.Errorf("replica sync: %w", err)
+		}
+		fol = startFollower(rdir, filepath.Join(dir, "follow.db"))
+		defer fol.stop()
+		if err := fol.waitFor(1, 180*time.Second); err != nil {
+			return fmt.Errorf("follower: initial restore from the snapshot at lockPgno%+d pages: %w", sc.delta, err)
+		}
+		fol.start, _ = litestream.ReadTXIDFile(fol.out)
+		lap("follower initial restore")
+	}
 	if sc.growths == nil {
 		// growth across the lock page within one sync: overflow pages n0+1 ...
 		if err := exec("INSERT INTO t(v) VALUES (randomblob(?))", int(ps)*5+int(ps)/2); err != nil {
@@ -774,12 +791,202 @@ func (e *emitter) sparseOne(r *rand.Rand, dir string, sc sparseScenario, decodeA
 			map[string]any{"scenario": cls, "how": "./check C17 re-runs the scenario"})
 	}
 	e.extra["sparse databases restored and compared"]++
+	if fol != nil {
+		if err := e.checkFollower(fol, c, path, out, ps, sc, cls); err != nil {
+			return err
+		}
+		lap("follower")
+	}
+	return nil
+}
+
+// ---- follow-mode restore -------------------------------------------------------------------
+
+type follower struct {
+	out    string
+	cancel context.CancelFunc
+	done   chan error
+	start  ltx.TXID // sidecar TXID after the initial restore
+	ended  bool
+	endErr error
+}
+
+func startFollower(rdir, out string) *follower {
+	ctx, cancel := context.WithCancel(context.Background())
+	f := &follower{out: out, cancel: cancel, done: make(chan error, 1)}
+	go func() {
+		var err error
+		defer func() {
+			if p := recover(); p != nil {
+				err = fmt.Errorf("panic: %v", p)
+			}
+			f.done <- err
+		}()
+		r := litestream.NewReplicaWithClient(nil, file.NewReplicaClient(rdir))
+		err = r.Restore(ctx, litestream.RestoreOptions{OutputPath: out, Follow: true, FollowInterval: 20 * time.Millisecond})
+	}()
+	return f
+}
+
+func (f *follower) stop() {
+	if f.ended {
+		return
+	}
+	f.cancel()
+	select {
+	case f.endErr = <-f.done:
+	case <-time.After(60 * time.Second):
+		f.endErr = fmt.Errorf("follower did not stop within 60 s of cancellation")
+	}
+	f.ended = true
+}
+
+// waitFor waits until the -txid sidecar reaches target.
+func (f *follower) waitFor(target ltx.TXID, timeout time.Duration) error {
+	deadline := time.Now().Add(timeout)
+	for {
+		if t, err := litestream.ReadTXIDFile(f.out); err == nil && t >= target {
+			return nil
+		}
+		select {
+		case err := <-f.done:
+			f.ended, f.endErr = true, err
+			return fmt.Errorf("Restore(Follow) returned before reaching TXID %d: %v", target, err)
+		case <-time.After(20 * time.Millisecond):
+		}
+		if time.Now().After(deadline) {
+			t, _ := litestream.ReadTXIDFile(f.out)
+			return fmt.Errorf("sidecar TXID %d did not reach %d within %s", t, target, timeout)
+		}
+	}
+}
+
+// normID: content id of a page for the model (0 = empty page); the page-1 header bytes the
+// follower rewrites are not part of it.
+func normID(pgno uint32, b []byte) uint64 {
+	if pgno == 1 && len(b) >= 28 {
+		c := append([]byte(nil), b...)
+		for _, i := range []int{18, 19, 24, 25, 26, 27} {
+			c[i] = 0
+		}
+		b = c
+	}
+	if bytes.Equal(b, make([]byte, len(b))) {
+		return 0
+	}
+	h := sha256.Sum256(b)
+	return 1<<32 + uint64(binary.BigEndian.Uint32(h[:4]))
+}
+
+// checkFollower: the follower must reach the last replicated TXID; its image is then compared
+// (1) with the one-shot restore of the same TXID, (2) with the checkpointed source, both page
+// for page with the lock page required to be empty, and (3) with the model's sequential
+// application (Ltx/Apply.v apply_all) of the level-0 files, on the pages around the lock page.
+func (e *emitter) checkFollower(fol *follower, c *file.ReplicaClient, src, oneShot string, ps uint32, sc sparseScenario, cls string) error {
+	lock := ltx.LockPgno(ps)
+	type l0 struct {
+		min, max ltx.TXID
+		path     string
+	}
+	var files []l0
+	ents, _ := os.ReadDir(c.LTXLevelDir(0))
+	for _, en := range ents {
+		if a, b, err := ltx.ParseFilename(en.Name()); err == nil {
+			files = append(files, l0{a, b, filepath.Join(c.LTXLevelDir(0), en.Name())})
+		}
+	}
+	sort.Slice(files, func(i, j int) bool { return files[i].min < files[j].min })
+	if len(files) == 0 {
+		return fmt.Errorf("follower: no level-0 file in the replica")
+	}
+	target := files[len(files)-1].max
+	rep := map[string]any{"scenario": cls, "how": "./check C17 re-runs the scenario"}
+	if err := fol.waitFor(target, 180*time.Second); err != nil {
+		fol.stop()
+		e.violation("C17/follower-stalled", fmt.Sprintf("page size %d, scenario %s: follow-mode restore started at TXID %d: %v", ps, sc.name, fol.start, err), rep)
+		return nil
+	}
+	fol.stop()
+	if fol.endErr != nil {
+		e.violation("C17/follower-stalled", fmt.Sprintf("page size %d, scenario %s: Restore(Follow) returned %v on cancellation", ps, sc.name, fol.endErr), rep)
+	}
+	e.extra[fmt.Sprintf("followers: started at TXID %d (snapshot of lockPgno%+d pages), applied level-0 files up to TXID %d", fol.start, sc.delta, target)]++
+	if target <= fol.start {
+		return fmt.Errorf("follower: no incremental file was applied after the initial restore (start %d, target %d)", fol.start, target)
+	}
+	for _, cmp := range []struct{ other, what, sig string }{
+		{oneShot, "the one-shot restore of the same TXID", "C17/follower-image-differs-from-restore"},
+		{src, "the checkpointed source database", "C17/follower-image-differs-from-source"},
+	} {
+		diff, pg, err := compareImages(cmp.other, fol.out, ps, true)
+		if err != nil {
+			return err
+		}
+		if diff != "" {
+			diff = strings.ReplaceAll(strings.ReplaceAll(diff, "restored", "followed"), "source", "reference")
+			e.violation(cmp.sig, fmt.Sprintf("page size %d, scenario %s, follower started at TXID %d and applied level-0 files up to TXID %d; compared with %s: %s%s",
+				ps, sc.name, fol.start, target, cmp.what, diff, pageForensics(cmp.other, fol.out, c, ps, pg)), rep)
+		}
+	}
+	// (3) the model: level-0 files applied in order to the empty database, on a window of pages
+	var window []uint32
+	for p := uint32(1); p <= 4; p++ {
+		window = append(window, p)
+	}
+	for p := lock - 4; p <= lock+12; p++ {
+		window = append(window, p)
+	}
+	var abs []absFile
+	for _, f := range files {
+		b, err := os.ReadFile(f.path)
+		if err != nil {
+			return err
+		}
+		dec := ltx.NewDecoder(bytes.NewReader(b))
+		if err := dec.DecodeHeader(); err != nil {
+			return err
+		}
+		h := dec.Header()
+		pages, err := ltxPages(b, window)
+		if err != nil {
+			return err
+		}
+		af := absFile{ps: ps, min: uint64(h.MinTXID), max: uint64(h.MaxTXID), commit: h.Commit}
+		for _, p := range window {
+			if data, ok := pages[p]; ok {
+				af.pages = append(af.pages, pg{p, normID(p, data)})
+			}
+		}
+		abs = append(abs, af)
+	}
+	ff, err := os.Open(fol.out)
+	if err != nil {
+		return err
+	}
+	defer ff.Close()
+	st, _ := ff.Stat()
+	img := absImage{size: uint32(st.Size() / int64(ps))}
+	buf := make([]byte, ps)
+	for _, p := range window {
+		if p <= img.size {
+			if _, err := ff.ReadAt(buf, int64(p-1)*int64(ps)); err != nil {
+				return err
+			}
+			if id := normID(p, buf); id != 0 {
+				img.pages = append(img.pages, pg{p, id})
+			}
+		}
+	}
+	e.cw.Add("ltx_apply", L(absImage{}.sx(), filesSx(abs)), img.sx(), cls+"/follower", true)
+	e.extra["follower images compared (one-shot restore, source, model apply_all)"]++
 	return nil
 }
 
 // compareImages: same size; every page other than the lock page identical; the
 // restored lock page (when inside the file) all zero.
-func compareImages(src, dst string, ps uint32) (string, uint32, error) {
+// maskHdr: bytes 18,19 (journal mode) and 24..27 (change counter) of page 1 are rewritten by
+// Replica.applyLTXFile in follow mode and are not compared.
+func compareImages(src, dst string, ps uint32, maskHdr ...bool) (string, uint32, error) {
 	a, err := os.Open(src)
 	if err != nil {
 		return "", 0, err
@@ -812,6 +1019,11 @@ func compareImages(src, dst string, ps uint32) (string, uint32, error) {
 		}
 		if _, err := io.ReadFull(io.NewSectionReader(b, int64(p-1)*int64(ps), int64(sz)), bb[:sz]); err != nil {
 			return "", 0, err
+		}
+		if p == 1 && len(maskHdr) > 0 && maskHdr[0] {
+			for _, i := range []int{18, 19, 24, 25, 26, 27} {
+				ba[i], bb[i] = 0, 0
+			}
 		}
 		if lock >= p && lock < p+n {
 			o := int(lock-p) * int(ps)
